@@ -207,7 +207,10 @@ func (w *Filter) processExpiredEvents(ctx context.Context) error {
 	}
 
 	// Iterate through list, starting with the oldest gated event at the front.
-	for e := w.orderedGated.Front(); e != nil; e = e.Next() {
+	var next *list.Element
+	for e := w.orderedGated.Front(); e != nil; e = next {
+		// openGate removes e from the list, so we need to get the next element first.
+		next = e.Next()
 		ge := e.Value.(*gatedEvent)
 		switch {
 		case w.Now().After(ge.exp):
@@ -258,7 +261,10 @@ func (w *Filter) FlushAll(ctx context.Context) error {
 	}
 
 	// Iterate through list, starting with the oldest gated event at the front.
-	for e := w.orderedGated.Front(); e != nil; e = e.Next() {
+	var next *list.Element
+	for e := w.orderedGated.Front(); e != nil; e = next {
+		// openGate removes e from the list, so we need to get the next element first.
+		next = e.Next()
 		ge := e.Value.(*gatedEvent)
 		if err := w.openGate(ctx, ge); err != nil {
 			return fmt.Errorf("%s: %w", op, err)
